@@ -31,6 +31,9 @@ RULE = ("case = one API configuration, one CLI invocation or a pair of invocatio
         "parses >= 1 entity; distinct by configuration tuple")
 ASSUMPTIONS = ["the in-memory API result for the decoded text is the reference"]
 
+# the oracle compares two calls made in the SAME interpreter (entry point vs in-memory API): a case that fails in a worker which has
+# served other cases before, but not alone in a new interpreter, is an earlier call changing a later one - a violation, not a harness fault
+LEAK_IS_VIOLATION = True
 TEXTS = {"t1": "CREATE TABLE \"t1\" (a int, b varchar(3) DEFAULT 'x');\n",
          "t2": "-- café Ж\nCREATE TABLE s.t2 (c int);\nCREATE SEQUENCE s.q START 1;\n",
          "t3": "CREATE TABLE h (x int) STORED AS PARQUET;\n",
@@ -41,7 +44,11 @@ TEXTS = {"t1": "CREATE TABLE \"t1\" (a int, b varchar(3) DEFAULT 'x');\n",
          # the same with CRLF line ends (the file is read in text mode, the in-memory reference gets the decoded bytes)
          "t7": "CREATE TABLE c (x int); -- note one\r\nCREATE TABLE d (\r\n  y int, /* in */\r\n  z int\r\n);\r\n-- tail\r\n",
          # CRLF line ends AND a line break inside a quoted literal
-         "t8": "CREATE TABLE e (\r\n  x int,\r\n  y varchar(20) DEFAULT 'first\r\nsecond'\r\n);\r\nCREATE TABLE f (z int);\r\n"}
+         "t8": "CREATE TABLE e (\r\n  x int,\r\n  y varchar(20) DEFAULT 'first\r\nsecond'\r\n);\r\nCREATE TABLE f (z int);\r\n",
+         # wave 8: text that switches on a per-script pre-processing step (the Hive RegexSerDe "input.regex" protection): a parser or a
+         # decision kept from the PREVIOUS file must not be applied to this one
+         "t9": "CREATE EXTERNAL TABLE logs (host string, ts string)\nROW FORMAT SERDE 'org.apache.hadoop.hive.serde2.RegexSerDe'\n"
+               "WITH SERDEPROPERTIES (\"input.regex\" = \"([^ ]*), (\\d+)\")\nSTORED AS TEXTFILE;\n"}
 
 
 class _Texts(dict):
